@@ -137,6 +137,31 @@ func structuredAll(thorough bool) []string {
 			}
 		}
 	}
+	// every place a pattern expression can stand x every shape of pattern
+	// expression built from literals, const fragments, strings and numbers
+	patExprs := []string{"P", "P + P", "/a/ + P", "P + /a/", "P + P + P", "(P)", "(P + P)", "P + \"s\"", "\"s\" + P", "\"s\" + \"t\"", "P + 1", "1 + P", "P + 1.5", "/a/ + 1", "/a/ + \"s\"", "\"s\" + /a/", "/a/ + /b/ + P", "P + Q", "Q", "/(/ + P", "P + /)/", "/(/ + /)/", "P + $1", "P + c", "-P", "P - P", "P * 2"}
+	for _, pe := range patExprs {
+		out = append(out,
+			"const P /a/\ncounter c\n/x/ {\n subst("+pe+", \"a\", \"b\") == \"b\" {\n c++\n }\n}\n",
+			"const P /a/\ncounter c\n/(?P<x>x)/ {\n $x =~ "+pe+" {\n c++\n }\n}\n",
+			"const P /a/\ncounter c\n/(?P<x>x)/ {\n $x !~ "+pe+" {\n c++\n }\n}\n",
+			"const P /a/\ncounter c\n"+pe+" {\n c++\n}\n",
+			"const P /a/\ncounter c\n/x/ && "+pe+" {\n c++\n}\n",
+			"const P /a/\nconst R "+pe+"\ncounter c\nR {\n c++\n}\n",
+			"const P /a/\nconst R "+pe+"\ncounter c\n/x/ {\n subst(R, \"a\", \"b\") == \"b\" {\n c++\n }\n}\n",
+			"const P /a/\ncounter c\n/x/ {\n c = len("+pe+")\n}\n",
+			"const P /a/\ncounter c by k\n/x/ {\n c["+pe+"]++\n}\n",
+		)
+	}
+	// const fragments defined from earlier fragments: each line doubles the pattern
+	for _, d := range []int{3, 8, 12, 16, 20, 30} {
+		var b strings.Builder
+		b.WriteString("const P0 /aaaaaaaa/\n")
+		for i := 1; i <= d; i++ {
+			fmt.Fprintf(&b, "const P%d // + P%d + P%d\n", i, i-1, i-1)
+		}
+		out = append(out, b.String()+"counter c\nP"+fmt.Sprint(d)+" {\n c++\n}\n", b.String()+"counter c\n/x/ {\n c++\n}\n")
+	}
 	big := 3000
 	if thorough {
 		big = 30000
